@@ -442,6 +442,13 @@ class ChooseOp(IRDLOperation):
         # FIXME, what if operation order is swapped? i.e. rhs on lhs side and vice versa?
         data_operand_types = ChooseOp._check_operand_types(self.data_operands, operations)
         for operation in operations:
+            # choices are told apart by their name only: an operation whose meaning sits in a property (the value
+            # of a constant, the predicate of a compare) cannot be offered next to another one of the same name
+            for existing in self.operations():
+                if existing.name == operation.name and existing.properties != operation.properties:
+                    raise NotImplementedError(
+                        f"{operation.name} with other properties than the {existing.name} this stage already offers"
+                    )
             if operation.name not in [op.name for op in self.operations()]:
                 block = Block(arg_types=data_operand_types)
                 block.add_ops([op := type(operation)(*block.args), YieldOp(op)])
